@@ -691,20 +691,37 @@ class symcomplex(metaclass=_CM):
 
 
 # ------------------------------------------------------------------ BLAS
+_BLAS_NATIVE = (np.dtype('float32'), np.dtype('float64'), np.dtype('complex64'), np.dtype('complex128'))
+
+
+def _f2py_inout(arr):
+    """f2py semantics of an intent(in,out) array argument: an array whose dtype is not one of the four BLAS types
+    (longdouble, byte-swapped, integer, ...) is converted, i.e. the routine works on a copy and the caller's array
+    is never written"""
+    if isinstance(arr, SymArray) and real_dtype(arr._fake) not in _BLAS_NATIVE:
+        return arr.copy()
+    if isinstance(arr, SymArray) and not real_dtype(arr._fake).isnative:
+        return arr.copy()
+    return arr
+
+
 def _blas_axpy(x, y, n=None, a=1.0, offx=0, incx=1, offy=0, incy=1):
     _used('blas.axpy')
+    y = _f2py_inout(y)
     y += a * x
     return y
 
 
 def _blas_scal(a, x, n=None, offx=0, incx=1):
     _used('blas.scal')
+    x = _f2py_inout(x)
     x *= a
     return x
 
 
 def _blas_copy(x, y, n=None, offx=0, incx=1, offy=0, incy=1):
     _used('blas.copy')
+    y = _f2py_inout(y)
     y[...] = x
     return y
 
